@@ -137,7 +137,7 @@ def run(pid, tier, seed, update_lock=False, verbose=False, only=None):
     # preload the modules the contracts touch (so forked workers share the parse)
     keys = [c.key for c in C.contracts_for(pid) if c.verify_body or True]
     if only:
-        keys = [k for k in keys if only in k[1]]
+        keys = [k for k in keys if only in (k[1] + '@' + k[2])]
     for k in keys:
         try:
             _P.module(k[0])
